@@ -4,7 +4,7 @@ package openapi3
 
 import "reflect"
 
-//verif:harness id=C13 tier=quick,thorough witness=end bounds="object-valued defaults: property retry (absent / {} / {max: number}) with default {max: M} whose schema gives delay the default D and nested.k the default K inside a nested object default; property list (absent / present) with default [{}] whose items give n the default N; M, D, K, N symbolic numbers: after ONE validation every absent member at every depth holds its default (the injected default object receives the defaults of its own absent members in the same pass), the document's default values are not modified, the value validates again and a second validation changes nothing"
+//verif:harness id=C13 tier=quick,thorough witness=end bounds="object-valued defaults: property retry (absent / {} / {max: number}) with default {max: M} whose schema gives delay the default D and nested.k the default K inside a nested object default; property list (absent / present) with default [{}] whose items give n the default N, with or without uniqueItems; M, D, K, N symbolic numbers: after ONE validation every absent member at every depth holds its default (the injected default object receives the defaults of its own absent members in the same pass), the document's default values are not modified, the value validates again and a second validation changes nothing"
 func verifH_C13_object_defaults() {
 	m, d, k, n := verifFiniteFloat("M"), verifFiniteFloat("D"), verifFiniteFloat("K"), verifFiniteFloat("N")
 	num := func(def any) *SchemaRef {
@@ -18,6 +18,8 @@ func verifH_C13_object_defaults() {
 		"nested": {Value: &Schema{Type: &Types{"object"}, Properties: Schemas{"k": num(k)}}},
 	}}
 	list := &Schema{Type: &Types{"array"}, Default: listDefault, Items: &SchemaRef{Value: &Schema{Type: &Types{"object"}, Properties: Schemas{"n": num(n)}}}}
+	// uniqueItems is judged on the items as they are forwarded (with their defaults), or the forwarded request would not validate again
+	list.UniqueItems = verifChoose("unique", 2) == 1
 	s := &Schema{Type: &Types{"object"}, Properties: Schemas{"retry": {Value: retry}, "list": {Value: list}}}
 	v := map[string]any{}
 	retryKind := verifChoose("retry", 3)
@@ -28,8 +30,10 @@ func verifH_C13_object_defaults() {
 		v["retry"] = map[string]any{"max": verifFiniteFloat("vmax")}
 	}
 	hasList := verifChoose("list", 2) == 1
+	vn := 0.0
 	if hasList {
-		v["list"] = []any{map[string]any{"n": verifFiniteFloat("vn")}, map[string]any{}}
+		vn = verifFiniteFloat("vn")
+		v["list"] = []any{map[string]any{"n": vn}, map[string]any{}}
 	}
 	want := verifCopyJSON(v).(map[string]any)
 	switch retryKind {
@@ -45,6 +49,15 @@ func verifH_C13_object_defaults() {
 	}
 	calls := 0
 	err := s.VisitJSON(v, VisitAsRequest(), DefaultsSet(func() { calls++ }))
+	if list.UniqueItems && hasList && vn == n && vn == 0 {
+		return // 0 and -0: uniqueness of signed zeros is C01's known finding
+	}
+	if list.UniqueItems && hasList && vn == n {
+		// with its default the second item equals the first
+		verifAssert(err != nil, "C13 object defaults: items that are duplicates once their defaults are filled in are rejected by uniqueItems at the first validation")
+		verifReach("end")
+		return
+	}
 	verifAssert(err == nil, "C13 object defaults: the request validates")
 	verifAssert(reflect.DeepEqual(v, want), "C13 object defaults: after one validation every absent member at every depth holds its default, nothing else changed")
 	verifAssert(calls == 1, "C13 object defaults: the defaults-set callback runs once")
